@@ -71,9 +71,10 @@ def run(tier, seed):
     plan3 = CC.Plan()
     CC.run_models(run, g3, [dict(pres="tensors", nreq=1, ce=2, label="options Lambda != 0 and an off-centre origin: 1 request exhaustive, ce=2"),
                             dict(pres="tensors", nreq=2, ce=1000, requests="CENTRE", label="same options: 2 requests over the keys that use Lambda or the origin"),
+                            dict(pres="nomatter", nreq=2, ce=1000, requests="CENTRE", label="same options, no matter supplied: 2 requests over the same keys"),
                             dict(pres="components", nreq=6, ce=3, simulate=(4 if tier == "quick" else 30), seed=seed + 11, emit=False,
                                  label="same options: simulated 6 requests ce=3")], plan3, opts3, request_sets={"CENTRE": [
-                                     k for k in g3["keys"] if any(t in k for t in ("null_ray", "angmom", "fromHam", "Hamiltonian", "dtKtrace", "st_Ricci", "Einstein"))]})
+                                     k for k in g3["keys"] if any(t in k for t in ("null_ray", "angmom", "fromHam", "Hamiltonian", "dtKtrace", "st_Ricci", "Einstein", "Ttrace", "rho_n", "Tdown4"))]})
     CC.execute(run, "C01", g3, plan3, opts3, seed, max_traces=150 if tier == "quick" else 1500)
     CC.binding_demo(run, graph, seed)
     run.rule = ("histories = shortest history reaching every (key, branch leaf) of the evaluation programs in an exhaustive TLC run of "
